@@ -118,10 +118,11 @@ class MetaMutate(OpSpec):
 
         def do():
             if isinstance(v, list):
+                texty = name == "tags" or (v and isinstance(v[0], str))  # keep the field's own element type (tags are words)
                 if v and op.get("how") == "setitem":
-                    v[0] = op.get("value", 424242) if not isinstance(v[0], str) else "edited"
+                    v[0] = "edited" if texty else op.get("value", 424242)
                 else:
-                    v.append(op.get("value", 424242) if not (v and isinstance(v[0], str)) else "edited")
+                    v.append("edited" if texty else op.get("value", 424242))
             else:
                 k = next(iter(v), None)
                 if k is None or op.get("how") != "setitem":
